@@ -72,7 +72,10 @@ def _case(draw):
         if k == "when_fail":
             comps.append(["->", c, ["f", "fail", [], []]])
         elif k == "when_fas":
-            comps.append(["->", c, ["f", "fail_and_stop", [], []]])
+            if draw(st.booleans()) and c[0] != "h":
+                comps.append(["f", "fail_and_stop", [], [c]])
+            else:
+                comps.append(["->", c, ["f", "fail_and_stop", [], []]])
         elif k == "fail_onmatch":
             comps.append(["f", "fail", ["onmatch"], []])
         elif k == "skip":
@@ -89,8 +92,96 @@ def _case(draw):
     return {"table": table, "scan": scan, "prog": {"comps": comps, "mode": "AND", "ignore_vars": []}, "policy": policy}
 
 
+@st.composite
+def _gcase(draw):
+    """history of 1-3 group runs (new or reused CsvPaths): members with conditional fail()/fail_all()"""
+    table = draw(progs.tables(min_rows=2, max_rows=6, ragged=False, extra=False))
+    nrec = len(table["records"])
+    runs = []
+    for k in range(draw(st.integers(1, 3))):
+        members = []
+        clean = draw(st.integers(0, 2)) == 1
+        for i in range(draw(st.integers(1, 3))):
+            c = _cond(draw, nrec)
+            kind = "none" if clean else draw(st.sampled_from(["none", "fail", "fail_all", "fail_all"]))
+            comps = [["h", "id"]]
+            if kind != "none":
+                comps.append(["->", c, ["f", kind, [], []]])
+            members.append({"id": f"m{i}", "comps": comps, "kind": kind})
+        runs.append({"members": members, "reuse": k > 0 and draw(st.booleans()),
+                     "method": draw(st.sampled_from(list(real.METHODS)))})
+    return {"shape": "group", "table": table, "runs": runs}
+
+
 def strategy(tier):
-    return _case()
+    return st.one_of(_case(), _case(), _gcase())
+
+
+def run_group_case(case, sb):
+    import json
+    import os
+    records = case["table"]["records"]
+    rel = sb.write_csv("f.csv", records)
+    problems = []
+    labels = ["shape:group"]
+    cps = None
+    nontrivial = False
+    fired_before = False
+    for k, run in enumerate(case["runs"]):
+        if cps is None or not run["reuse"]:
+            cps = real.new_csvpaths()
+        else:
+            labels.append("reused-instance")
+        texts = [common.text_of({"comps": m["comps"], "mode": "AND"}, "", "1*", comment=f"~ id: {m['id']} ~ ") for m in run["members"]]
+        g = f"g{k}"
+        real.setup_group(sb, cps, g, texts, "f", records)
+        alone = [real.run_path(common.text_of({"comps": m["comps"], "mode": "AND"}, rel, "1*", comment=f"~ id: {m['id']} ~ ")) for m in run["members"]]
+        out = real.run_group(cps, g, "f", run["method"])
+        if out["raised"]:
+            problems.append({"run": k, "raised": out["raised"]})
+            break
+        verdicts = [m["is_valid"] for m in out["members"]]
+        has_fail_all = any(m["kind"] == "fail_all" for m in run["members"])
+        has_any_fail = any(m["kind"] != "none" for m in run["members"])
+        if not has_any_fail:
+            if fired_before and run["reuse"]:
+                nontrivial = True
+            if not all(verdicts):
+                problems.append({"run": k, "clean_run_members_invalid": verdicts, "method": run["method"], "csvpaths": texts})
+        for m, a, o in zip(run["members"], alone, out["members"]):
+            if not has_fail_all and o["is_valid"] != a["is_valid"]:
+                problems.append({"run": k, "member": m["id"], "standalone_valid": a["is_valid"], "group_valid": o["is_valid"], "method": run["method"]})
+            if not a["is_valid"] and o["is_valid"]:
+                problems.append({"run": k, "member": m["id"], "failed_alone_but_valid_in_group": True, "method": run["method"]})
+        agg = core.call_real(cps.results_manager.is_valid, g)
+        if agg != all(verdicts):
+            problems.append({"run": k, "results_manager.is_valid": repr(agg), "members": verdicts})
+        gdir = os.path.join(sb.root, "archive", g)
+        rds = [d for d in os.listdir(gdir) if os.path.isdir(os.path.join(gdir, d))] if os.path.isdir(gdir) else []
+        if len(rds) == 1:
+            try:
+                with open(os.path.join(gdir, rds[0], "manifest.json")) as f:
+                    man = json.load(f)
+                if man.get("all_valid") != all(verdicts):
+                    problems.append({"run": k, "manifest.all_valid": man.get("all_valid"), "members": verdicts})
+                for m, o in zip(run["members"], out["members"]):
+                    with open(os.path.join(gdir, rds[0], m["id"], "manifest.json")) as f:
+                        mm = json.load(f)
+                    if mm.get("valid") != o["is_valid"]:
+                        problems.append({"run": k, "member": m["id"], "member_manifest.valid": mm.get("valid"), "in_memory": o["is_valid"]})
+            except Exception as e:  # noqa: BLE001
+                problems.append({"run": k, "manifests": repr(e)})
+        else:
+            problems.append({"run": k, "run_directories": rds})
+        if any(not v for v in verdicts):
+            fired_before = True
+            labels.append("some-member-invalid")
+        if problems:
+            break
+    ok = not problems
+    summary = {"runs": [{"method": r["method"], "reuse": r["reuse"], "kinds": [m["kind"] for m in r["members"]]} for r in case["runs"]], "records": records}
+    return core.outcome(ok=ok, nontrivial=nontrivial or len(case["runs"]) >= 2, labels=sorted(set(labels)),
+                        detail=None if ok else dict(summary, problems=problems[:5]), summary=summary)
 
 
 def _taps(tag):
@@ -99,6 +190,8 @@ def _taps(tag):
 
 
 def run_case(case, sb):
+    if case.get("shape") == "group":
+        return run_group_case(case, sb)
     records = case["table"]["records"]
     prog = case["prog"]
     has_onmatch = any(c[0] == "f" and "onmatch" in c[2] for c in prog["comps"])
